@@ -176,6 +176,15 @@ def _fault_worker(item):
     return item, ok, detail, delivered, retry
 
 
+def wide_slices(run):
+    """a default-layout cube whose z-slice takes several hundred range reads (more than one batch of any batched fan-out)"""
+    from .. import writers
+    d = env.subdir('c17w')
+    p = os.path.join(d, 'wide.sgz')
+    writers.numpy_to_sgz(p, inputs.cube((68, 68, 8), run.seed + 91), 32, (4, 4, -1))
+    return [session.FileCase(p, label='numpy(68, 68, 8)r32b(4, 4, -1) 289 units per z-slice')]
+
+
 def run(run):
     rng = np.random.default_rng(run.seed)
     quick = run.tier == 'quick'
@@ -185,7 +194,7 @@ def run(run):
         ('small_8bit.', 'small-irregular', 'small_8bit-8x8', 'small-2d', 'small_2bit-64x64', 'small_4bit', 'padding_6x7')
     fx = [f for f in fx if any(k in f for k in keep)]
     adv = [c for c in c02.written_files(run, 'quick') if 'b(16, 16, 4)' in c.label]
-    cases = session.load_files([session.FileCase(p) for p in fx] + adv + c02.written_2d(run, 'quick')[:1], run)
+    cases = session.load_files([session.FileCase(p) for p in fx] + adv + c02.written_2d(run, 'quick')[:1] + wide_slices(run), run)
     files, items = [], []
     for fi, fc in enumerate(cases):
         calls = sample_calls(fc, rng, quick)
@@ -330,7 +339,7 @@ def replay(run, rep):
     if fx:
         fc = session.load_files([session.FileCase(fx[0])], run)[0]
     else:
-        pool = c02.written_files(run, 'quick') + c02.written_2d(run, 'quick')
+        pool = c02.written_files(run, 'quick') + c02.written_2d(run, 'quick') + wide_slices(run)
         fc = [c for c in session.load_files(pool, run) if c.label == case['file']][0]
     hdr = case['op'].startswith('hdr:')
     ans = session.eval_calls([fc], [(0, case['op'], case['args'])], run)[0] if not hdr else None
